@@ -15,6 +15,7 @@ mod assume;
 mod agones;
 mod filters;
 mod fixedloc;
+mod cfgflow;
 mod cipher;
 mod codec;
 mod grpc;
@@ -90,6 +91,8 @@ fn main() {
         "keepalive" => keepalive::sweep(seed),
         "agones" => agones::histories(seed),
         "limits" => conn::limits(seed),
+        "config_flow" => cfgflow::sweep(seed),
+        "frames" => conn::frames(seed),
         "session" => conn::session(seed),
         "order" => conn::order(seed),
         "enc_response" => conn::enc_response(seed),
